@@ -1003,6 +1003,25 @@ func genXProg(r *Rng) *xprogCase {
 			g.fs[pr.f].Body = append(pre, g.fs[pr.f].Body...)
 		}
 	}
+	if r.Chance(4) {
+		// a function with more results than any table of a fixed size has slots (66: sixty-four ints and two errors),
+		// recursive through a forwarding return — the recursion has to be cut for the results at the far end too
+		tys := strings.Repeat("i", 64) + "ee"
+		var lits []XExpr
+		for i := range tys {
+			if tys[i] == 'i' {
+				lits = append(lits, XExpr{K: "lit", V: fmt.Sprint(1 + i%7), Ty: 'i'})
+			} else {
+				lits = append(lits, XExpr{K: "nil"})
+			}
+		}
+		f := len(g.fs)
+		g.fs = append(g.fs, XFunc{Tys: tys, Body: []XStmt{
+			{K: "ret", If: true, Rhs: []XExpr{{K: "call", F: f}}},
+			{K: "ret", Rhs: lits},
+		}})
+		k = len(g.fs)
+	}
 	c := &xprogCase{Fs: g.fs, Q: r.Intn(k)}
 	return c
 }
@@ -1051,5 +1070,5 @@ var xprogStream = &Stream{
 	Name: "extended-programs", Quick: 1500, Thorough: 10000, New: func() Case { return &xprogCase{} },
 	Gen:      func(r *Rng, i int) Case { return genXProg(r) },
 	BatchRun: xprogBatch, ShrinkBudget: 40, MaxShrinks: 5,
-	Rule: "programs of 2–6 functions over the extended language of Model/Resolver2: 1–3 results of int/string/error (named in a third of the functions), parameters none / `e error` / `fn func() error` / `fn func() (int, error)` / `es ...error` / `e error, es ...error` (called with 0–2 listed arguments or with a slice spread into them), 0–3 local variables, 1–6 statements (some nested in an if, a for, a labelled for or switch, a bare block, a switch case, a range loop or a select) among single, tuple, forwarding (`x, err = F()`) and `+=` assignments to locals, named results, captured variables, package variables and struct fields, full / forwarding / bare returns; expressions: literals, nil, opaque, identifiers (locals, named results, parameters, package variables of the same and of another file, selectors), calls with an error argument (itself an identifier, nil or a call) or a function literal argument with its own locals and statements, calls through a function-typed parameter, calls through a selector into functions of a sub-package (which call one another, use that package's variables and take literals too), functions declared without body, a literal-only function now and then, and in one program of seven an expression over a package-level constant assigned to one named result, the constant's name declared again locally (another value or another type), and the same expression text assigned to another named result; printed to Go (two files), loaded with the real loader (100 per load), every top-level function of a program asked one after the other on the same loaded package in supervised children (the model answers each question from scratch); every statement carries its source-order number for the model; compared: FuncResults.String(); oracle as for the core programs",
+	Rule: "programs of 2–6 functions over the extended language of Model/Resolver2: 1–3 results of int/string/error (named in a third of the functions), parameters none / `e error` / `fn func() error` / `fn func() (int, error)` / `es ...error` / `e error, es ...error` (called with 0–2 listed arguments or with a slice spread into them), 0–3 local variables, 1–6 statements (some nested in an if, a for, a labelled for or switch, a bare block, a switch case, a range loop or a select) among single, tuple, forwarding (`x, err = F()`) and `+=` assignments to locals, named results, captured variables, package variables and struct fields, full / forwarding / bare returns; expressions: literals, nil, opaque, identifiers (locals, named results, parameters, package variables of the same and of another file, selectors), calls with an error argument (itself an identifier, nil or a call) or a function literal argument with its own locals and statements, calls through a function-typed parameter, calls through a selector into functions of a sub-package (which call one another, use that package's variables and take literals too), functions declared without body, a literal-only function now and then, now and then a self-recursive function with 66 results, and in one program of seven an expression over a package-level constant assigned to one named result, the constant's name declared again locally (another value or another type), and the same expression text assigned to another named result; printed to Go (two files), loaded with the real loader (100 per load), every top-level function of a program asked one after the other on the same loaded package in supervised children (the model answers each question from scratch); every statement carries its source-order number for the model; compared: FuncResults.String(); oracle as for the core programs",
 }
